@@ -1,0 +1,146 @@
+//! Verification hook, only compiled with `--cfg derive_where_verif` in test
+//! builds. Reads one item per line from `$DW_VERIF_IN`, runs the real
+//! expansion pipeline in-process and writes one result line per input line to
+//! `$DW_VERIF_OUT`.
+//!
+//! Line format: `<stage> <rust source of one item>` with stage `1`
+//! (attribute macro: `derive_where_internal` and, on error,
+//! `input_without_derive_where_attributes`) or `2` (derive macro:
+//! `Input::from_input` and `generate_impl` per attribute and trait).
+
+use std::{env, fs, io::Write, iter, panic};
+
+use proc_macro2::{Delimiter, TokenStream, TokenTree};
+use quote::ToTokens;
+use syn::{spanned::Spanned, DeriveInput};
+
+use crate::{
+	derive_where_internal, generate_impl, input::Input, input_without_derive_where_attributes,
+	TraitImpl,
+};
+
+/// Flatten a [`TokenStream`] into space separated leaf tokens.
+fn flat(ts: TokenStream, out: &mut String) {
+	for tt in ts {
+		match tt {
+			TokenTree::Group(group) => {
+				let (open, close) = match group.delimiter() {
+					Delimiter::Parenthesis => ("(", ")"),
+					Delimiter::Brace => ("{", "}"),
+					Delimiter::Bracket => ("[", "]"),
+					Delimiter::None => ("\u{27e6}", "\u{27e7}"),
+				};
+				out.push_str(open);
+				out.push(' ');
+				flat(group.stream(), out);
+				out.push_str(close);
+				out.push(' ');
+			}
+			other => {
+				out.push_str(&other.to_string());
+				out.push(' ');
+			}
+		}
+	}
+}
+
+/// What `derive_where_actual` does.
+fn stage2(src: &str) -> String {
+	let input: TokenStream = match src.parse() {
+		Ok(input) => input,
+		Err(error) => return format!("lex {}", error),
+	};
+	let item = match syn::parse2::<DeriveInput>(input) {
+		Ok(item) => item,
+		Err(error) => return format!("synitem {}", error),
+	};
+
+	let span = {
+		let clean_item = DeriveInput {
+			attrs: Vec::new(),
+			vis: item.vis.clone(),
+			ident: item.ident.clone(),
+			generics: item.generics.clone(),
+			data: item.data.clone(),
+		};
+
+		clean_item.span()
+	};
+
+	match Input::from_input(span, &item) {
+		Ok(Input {
+			derive_wheres,
+			generics,
+			item,
+		}) => {
+			let mut out = String::from("ok");
+
+			for (derive_where, trait_) in derive_wheres
+				.iter()
+				.flat_map(|derive_where| iter::repeat(derive_where).zip(&derive_where.traits))
+			{
+				out.push_str(" @@ ");
+				out.push_str(trait_.as_str());
+				out.push(' ');
+				flat(generate_impl(derive_where, trait_, &item, &generics), &mut out);
+			}
+
+			out
+		}
+		Err(error) => format!("err {}", error),
+	}
+}
+
+/// What `derive_where` does after building its input.
+fn stage1(src: &str) -> String {
+	let input: TokenStream = match src.parse() {
+		Ok(input) => input,
+		Err(error) => return format!("lex {}", error),
+	};
+	let input = match syn::parse2::<DeriveInput>(input) {
+		Ok(input) => input,
+		Err(error) => return format!("synitem {}", error),
+	};
+
+	match derive_where_internal(input.clone()) {
+		Ok(item) => {
+			let mut out = String::from("ok ");
+			flat(item, &mut out);
+			out
+		}
+		Err(error) => {
+			let mut out = format!("err {} @@ ", error);
+			flat(
+				input_without_derive_where_attributes(input).into_token_stream(),
+				&mut out,
+			);
+			out
+		}
+	}
+}
+
+#[test]
+fn verif_hook() {
+	let input = env::var("DW_VERIF_IN").expect("DW_VERIF_IN");
+	let output = env::var("DW_VERIF_OUT").expect("DW_VERIF_OUT");
+	let data = fs::read_to_string(input).unwrap();
+	let mut out = fs::File::create(output).unwrap();
+	panic::set_hook(Box::new(|_| {}));
+
+	for line in data.lines() {
+		let (stage, src) = line.split_at(line.find(' ').unwrap_or(line.len()));
+		let result = panic::catch_unwind(|| match stage {
+			"1" => stage1(src),
+			_ => stage2(src),
+		})
+		.unwrap_or_else(|payload| {
+			let message = payload
+				.downcast_ref::<String>()
+				.cloned()
+				.or_else(|| payload.downcast_ref::<&str>().map(|s| (*s).to_string()))
+				.unwrap_or_default();
+			format!("panic {}", message)
+		});
+		writeln!(out, "{}", result.replace('\n', " ")).unwrap();
+	}
+}
